@@ -24,6 +24,6 @@ CentringIsDeclared == KDone => Scale(Cen, 6) = Scale(CentringTrans(XEntry(nm).ce
 PrimitiveIffNoCentring == KDone => (IsPrimitiveList(RotList) <=> Cen = {})
 FastIsAut == KDone => grp = Aut(XEntry(nm))
 GroupHasIdentity == KDone => CountIdentity(RotList) >= 1
-EmitTable == PrintT(ToString(<<"PMAT", PMatTable>>))
+EmitTable == PrintT(ToString(<<"PMAT", PMatTable>>)) /\ PrintT(ToString(<<"SHAPE", ShapeTable>>))
 Emit == KDone => PrintT(ToString(<<"XCELL", XEntry(nm), RotList, IsPrimitiveList(RotList)>>))
 =============================================================================
